@@ -37,6 +37,8 @@ func checkC13(r *core.Run) {
 	c13Effects(r, p)
 	c13Der(r, p)
 	c13Nil(r, p)
+	// a transaction mixing segwit-v0 and taproot inputs: each digest keeps its own cached sub-hashes (shared with C02)
+	c02CacheOwners(r, p, "R-C13-dispatch")
 }
 
 func c13w(p *core.Program, n string) *ssa.Function { return p.Func("wallet." + n) }
